@@ -27,6 +27,21 @@ HOURS = {
 DAYS = ["mon - fri", "mon, wed, fri", "sat, sun", "fri - mon", "mon - sun", "tue"]
 ZONES_Q = [None, "America/New_York", "Europe/London", "Asia/Kolkata", "Australia/Lord_Howe", "Pacific/Kiritimati", "Pacific/Pago_Pago"]
 STARTS = ["2025-01-06", "2025-03-03", "2025-09-29"]
+def _multi_layouts():
+    """three separate days off of one kind, the statements written in every order (the customary order is chronological)"""
+    import itertools
+
+    days = [("D1", None), ("D3", None), ("D8", "D9")]
+    out = {}
+    for perm in itertools.permutations(range(3)):
+        tag = "".join(str(i) for i in perm)
+        out[f"pvac3-{tag}"] = {"vac": [days[i] for i in perm]}
+        out[f"gleave3-{tag}"] = {"gl": [("holiday",) + days[i] for i in perm]}
+        out[f"rleave3-{tag}"] = {"res": [{"k": "leaves", "type": "annual", "a": days[i][0], "b": days[i][1]} for i in perm]}
+        out[f"rvac3-{tag}"] = {"res": [{"k": "vacation", "a": days[i][0], "b": days[i][1]} for i in perm]}
+    return out
+
+
 LEAVES = {
     "none": {},
     "rleave1": {"res": [{"k": "leaves", "type": "annual", "a": "D1"}]},
@@ -41,6 +56,7 @@ LEAVES = {
     "bookmid": {"res": [{"k": "booking", "a": "D1-09:00", "b": "+90min"}]},
     "rleavemid": {"res": [{"k": "leaves", "type": "sick", "a": "D1-13:00", "b": "D1-14:40"}]},
     "pvacmid": {"vac": [("D2-09:00", "D2-10:20")]},
+    **_multi_layouts(),
     "span-start": {"res": [{"k": "leaves", "type": "annual", "a": "B5", "b": "D2"}]},      # begins 5 days before the project start
     "pspan-start": {"gl": [("holiday", "B3", "D1")]},
 }
@@ -58,7 +74,7 @@ def _subst(start, s):
         return None
     if s.startswith("B"):
         return _day(start, -int(s[1]), s[2:])
-    for n in (1, 2, 3, 4):
+    for n in (1, 2, 3, 4, 8, 9):
         tag = f"D{n}"
         if s.startswith(tag):
             return _day(start, n, s[len(tag):])
